@@ -406,6 +406,18 @@ fn run_case(cx: &Cx, case: &Value) -> Vec<(String, String)> {
     match case["kind"].as_str() {
         Some("id") => check_id(cx, case["id"].as_u64().unwrap() as u16),
         Some("name") => check_name_query(cx, case["query"].as_str().unwrap()),
+        Some("static-slice") => {
+            let Some(s) = TlsCipherSuite::from_id(case["id"].as_u64().unwrap() as u16) else { return Vec::new() };
+            let name: &'static str = s.name;
+            let k = (case["cut"].as_u64().unwrap() as usize).min(name.len());
+            let mut out = Vec::new();
+            for q in [&name[..k], &name[k..]] {
+                if q.len() != name.len() && !cx.by_name.contains_key(q) {
+                    out.extend(check_name_query(cx, q));
+                }
+            }
+            out
+        }
         Some("tokens") => {
             let id = case["id"].as_u64().unwrap() as u16;
             TlsCipherSuite::from_id(id).map(|s| check_name_tokens(s).0).unwrap_or_default()
@@ -670,6 +682,34 @@ fn main() {
         });
         sink.merge(sid);
     }
+    // (7) queries that alias the crate's own static strings: every proper prefix and suffix of every suite's `name`
+    //     (and of its neighbours in memory) taken as a slice of that very static, not as a copy - a comparison by
+    //     address or by prefix answers for these
+    {
+        let mut n = 0u64;
+        for id in 0..=65535u32 {
+            let Some(s) = TlsCipherSuite::from_id(id as u16) else { continue };
+            let name: &'static str = s.name;
+            for k in 0..name.len() {
+                for q in [&name[..k], &name[k..]] {
+                    if q.len() == name.len() {
+                        continue;
+                    }
+                    n += 1;
+                    if cx.by_name.contains_key(q) {
+                        continue;
+                    }
+                    if TlsCipherSuite::from_name(q).is_some() || <&TlsCipherSuite>::try_from(q).is_ok() {
+                        for (kk, w) in check_name_query(&cx, q) {
+                            sink.violation(format!("name {:?} (slice of the static name) {}", q, kk), format!("{} [the query is a slice of the registry's own static string {:?}]", w, name), json!({"kind":"static-slice","id":id,"cut":k}));
+                        }
+                    }
+                }
+            }
+        }
+        sink.evals += n;
+        sink.bump("slices of the registry's static names", n);
+    }
     let judged = sink.hist.get(&("name tokens", "judged")).copied().unwrap_or(0);
     if sink.viol.is_empty() && (judged < 300 || sink.hist.get(&("id lookup", "listed")).copied().unwrap_or(0) < 300) {
         machinery_failure(run.prop, "vacuous: fewer than 300 suites judged");
@@ -678,7 +718,7 @@ fn main() {
     cov.insert("exhaustive".into(), json!(true));
     cov.insert("registry_rows".into(), json!(cx.rows.len()));
     cov.insert("rule".into(), json!(
-        "all 65536 ids through 4 lookup routes (listed ids: all 10 columns + derived sizes against an independent reading of scripts/tls-ciphersuites.txt; name-token agreement); all registry names plus every proper prefix, single-character substitution (4-letter alphabet), deletion, appended/prepended character, case change and alias-style respelling (SSL_/tls_/no prefix, other separators, OpenSSL-like abbreviations, surrounding blanks) through both name lookups; every string of length <= 5 [6] over the 37-letter alphabet of registry names, bare and behind TLS_, through both name lookups (expected answer: nothing); every id written as a string in 19-23 notations (hex / decimal / IANA byte pair / Debug texts) through both name lookups; committed snapshot of today's assignments. Non-trivial: ids that are listed or adjacent to a listed id; every name query"));
+        "all 65536 ids through 4 lookup routes (listed ids: all 10 columns + derived sizes against an independent reading of scripts/tls-ciphersuites.txt; name-token agreement); all registry names plus every proper prefix, single-character substitution (4-letter alphabet), deletion, appended/prepended character, case change and alias-style respelling (SSL_/tls_/no prefix, other separators, OpenSSL-like abbreviations, surrounding blanks) through both name lookups; every string of length <= 5 [6] over the 37-letter alphabet of registry names, bare and behind TLS_, through both name lookups (expected answer: nothing); every id written as a string in 19-23 notations (hex / decimal / IANA byte pair / Debug texts) through both name lookups; every proper prefix and suffix of every registry name passed as a slice of the crate's own static string; committed snapshot of today's assignments. Non-trivial: ids that are listed or adjacent to a listed id; every name query"));
     // the same check against the crate built with all cargo features (std, serialize, unstable)
     let mut sink = sink;
     run.all_features_variant(&mut sink);
